@@ -5,8 +5,9 @@
 arg="$1"; shift; extra="$@"
 id="${arg%%:*}"; suffix=""; [ "$arg" != "$id" ] && suffix="${arg#*:}"
 src=/tmp/wt/$id/_seeded; dst=/verif/seeded/$id$suffix
-[ -f "$src/patch.diff" ] || { echo "$id: no patch"; exit 2; }
-mkdir -p $dst; cp $src/patch.diff $dst/patch.diff; cp $src/seeded_demo.rs $dst/seeded_demo.rs; cp $src/NOTES.md $dst/NOTES.md 2>/dev/null
+if [ -f "$src/patch.diff" ]; then
+  mkdir -p $dst; cp $src/patch.diff $dst/patch.diff; cp $src/seeded_demo.rs $dst/seeded_demo.rs; cp $src/NOTES.md $dst/NOTES.md 2>/dev/null
+elif [ ! -f "$dst/patch.diff" ]; then echo "$id: no patch"; exit 2; fi
 W=/tmp/wt/mut; cd $W && git checkout -q -- . && rm -f tests/seeded_demo.rs
 git apply $dst/patch.diff || { echo "$id: patch does not apply"; exit 2; }
 lib=$(cargo test --offline --lib 2>&1 | grep -E "^test result" | head -1)
